@@ -69,12 +69,23 @@ def pLeaves : P (Leaves Float) := do
   | "l" => pure { (codeLeaves : Leaves Float) with wt := wtLegacy }
   | t => throw s!"bad-leaves {t}"
 
-def pGamma : P (GammaFn Float) := do
+/-- a parsed gamma tag; `"T"` is the team-reading callback `gammaTeamSigma`.  The tag is kept symbolic so that
+the same callback can be built over every scalar type (`GammaTag.build`): a `.fn` member is a function and
+cannot be converted from `Float` to another scalar type after the fact. -/
+inductive GammaTag where
+  | D | C (x : Float) | I | R | Q | Z | T
+
+def GammaTag.build {α : Type} [Scalar α] (f : Float → α) : GammaTag → GammaFn α
+  | .D => .dflt | .C k => .const (f k) | .I => .invK | .R => .rankDep | .Q => .sq | .Z => .zero
+  | .T => gammaTeamSigma
+
+def pGamma : P GammaTag := do
   let t ← tok
   let x ← pFloat
   match t with
-  | "D" => pure .dflt | "C" => pure (.const x) | "I" => pure .invK
-  | "R" => pure .rankDep | "Q" => pure .sq | "Z" => pure .zero
+  | "D" => pure .D | "C" => pure (.C x) | "I" => pure .I
+  | "R" => pure .R | "Q" => pure .Q | "Z" => pure .Z
+  | "T" => pure .T
   | _ => throw s!"bad-gamma {t}"
 
 def pNum : P PyNum := do
@@ -145,8 +156,8 @@ def convTeams {α : Type} (f : Float → α) (ts : List (List (Rating Float))) :
 def backTeams {α : Type} (f : α → Float) (ts : List (List (Rating α))) : List (List (Rating Float)) :=
   ts.map (·.map (fun p => { id := p.id, mu := f p.mu, sigma := f p.sigma }))
 
-def convGamma {α : Type} (f : Float → α) : GammaFn Float → GammaFn α
-  | .dflt => .dflt | .const k => .const (f k) | .invK => .invK | .rankDep => .rankDep | .sq => .sq | .zero => .zero
+/-- the callback of a parsed tag over the scalar type `α` (constants travel through `f`) -/
+def convGamma {α : Type} [Scalar α] (f : Float → α) (g : GammaTag) : GammaFn α := g.build f
 
 def showExc : Except PyExc Unit → String
   | .ok () => "ok"
@@ -216,7 +227,7 @@ def runOp : P String := do
       | "R" => Outcome.ranks <$> pMany n pNum
       | "S" => Outcome.scores <$> pMany n pNum
       | t => throw s!"bad-outcome {t}"
-    let P : Params Float := { beta := beta, kappa := kappa, tau := tau, limitSigma := ls, gamma := g }
+    let P : Params Float := { beta := beta, kappa := kappa, tau := tau, limitSigma := ls, gamma := convGamma id g }
     let res := if op == "RLOOP" then rateLoop k lv P PyNum.le PyNum.neg teams outcome { tau := tauO, limitSigma := lsO }
                else rate k lv P PyNum.le PyNum.neg teams outcome { tau := tauO, limitSigma := lsO }
     if allFinite res then pure ("OK " ++ showTeams res) else pure ("NONFINITE " ++ showTeams res)
@@ -239,7 +250,7 @@ def runOp : P String := do
       | "R" => Outcome.ranks <$> pMany n pNum
       | "S" => Outcome.scores <$> pMany n pNum
       | t => throw s!"bad-outcome {t}"
-    let P : Params Float := { beta := beta, kappa := kappa, tau := tau, limitSigma := ls, gamma := g }
+    let P : Params Float := { beta := beta, kappa := kappa, tau := tau, limitSigma := ls, gamma := convGamma id g }
     let tr := rateTrace k P PyNum.le PyNum.neg teams outcome { tau := tauO, limitSigma := lsO }
     pure ("OK " ++ " ".intercalate (tr.map (fun c =>
       s!"{toHex c.c}:{c.k}:{toHex c.mu}:{toHex c.sig2}:{c.rank}:{",".intercalate (c.ids.map toString)}")))
@@ -364,7 +375,7 @@ def runOp : P String := do
       let sNX := playLeague codeLeaves PX PyNum.le PyNum.neg s0X gamesX
       pure ("OK " ++ " ".intercalate ((List.range np).map (fun p => s!"{showBF (sNX.mu p)}:{showBF (sNX.sigma p)}")))
     else
-    let P : Params Float := { beta := beta, kappa := kappa, tau := tau, limitSigma := ls, gamma := g }
+    let P : Params Float := { beta := beta, kappa := kappa, tau := tau, limitSigma := ls, gamma := convGamma id g }
     let s0 : Store Float := { mu := fun p => (init.getD p (0.0, 0.0)).1, sigma := fun p => (init.getD p (0.0, 0.0)).2 }
     let sN := playLeague codeLeaves P PyNum.le PyNum.neg s0 games.toList
     pure ("OK " ++ " ".intercalate ((List.range np).map (fun p => s!"{toHex (sN.mu p)}:{toHex (sN.sigma p)}")))
